@@ -141,8 +141,9 @@ PROPS["C12"] = {
 }
 
 PROPS["C13"] = {
-    "parts": [{"family": "lin", "admits": "LinCorr.admits_lin", "model_obs": None, "race": True, "timeout": 900}],
-    "level_text": "Partial. Proved: for the lock-disciplined store at the granularity of the Go bodies (Merge writes key by key, Keys/GetAll read entry by entry, sync.RWMutex as writer + reader count), for any number of threads, any operation lists and every schedule: C13_linearizable (the timestamped history is Linearizable against an ordinary map in the classic sense: a legal sequential permutation keeping real-time order; the witness is the response order), C13_response_order_legal, C13_race_free (no two threads inside bodies when one writes), and C13_unlocked_not_linearizable / C13_unlocked_racy (the same system without the lock is neither). C13_check_witness_sound: an accepted witness proves Linearizable. Implementation side: every recorded history of 2..6 goroutines over 3 keys, all nine operations plus typed getters, run under the race detector, is judged by that checker inside Coq on a witness proposed by a Go search; histories of <= 7 operations are additionally decided exhaustively by lin_search. Not proved: that the Go accessors take mu as modelled (read from flyt.go:71-161; exercised by the race detector and the history checks only), and the Go memory model itself.",
+    "parts": [{"family": "lin", "admits": "LinCorr.admits_lin", "model_obs": None, "race": True, "timeout": 900},
+              {"family": "lockscan", "admits": "LockCorr.admits_locks", "model_obs": None, "timeout": 120}],
+    "level_text": "Partial. Proved: for the lock-disciplined store at the granularity of the Go bodies (Merge writes key by key, Keys/GetAll read entry by entry, sync.RWMutex as writer + reader count), for any number of threads, any operation lists and every schedule: C13_linearizable (the timestamped history is Linearizable against an ordinary map in the classic sense: a legal sequential permutation keeping real-time order; the witness is the response order), C13_response_order_legal, C13_race_free (no two threads inside bodies when one writes), and C13_unlocked_not_linearizable / C13_unlocked_racy (the same system without the lock is neither). C13_check_witness_sound: an accepted witness proves Linearizable. Implementation side: every recorded history of 2..6 goroutines over 3 keys, all nine operations plus typed getters, run under the race detector, is judged by that checker inside Coq on a witness proposed by a Go search; histories of <= 7 operations are additionally decided exhaustively by lin_search. C13_spec_is_the_store_model: the sequential map of the linearizability definition is the store machine of C14 that runs side by side with the Go store. The hypothesis of the model theorems - each operation holds the write lock (Set, Delete, Merge, Clear) or the read lock for its whole body, no state besides mutex and map, every other method goes through these - is compared on every run with a scan of the SOURCE of the store (harness/lockscan.go, go/ast: first mutex statement is Lock/RLock followed by the matching deferred unlock, map not touched before, mutex not mentioned elsewhere, no goroutine; struct fields). Not proved: that this syntactic discipline means what the model's steps say (Go memory model, sync.RWMutex), which is exercised by the race detector and the history checks.",
     "level_note": _T + " The scheduler is not controlled (no hooks): interleavings inside the store are whatever the Go runtime produces under a start barrier; the theorems cover all schedules of the model, the check samples those of the implementation.",
     "explanation": "all-schedule invariant proof on the granular lock model (response order is a linearization; mutual exclusion); implementation histories judged by a proved-sound witness checker under -race",
     "assumptions": ["typed getters are recorded as Get + conversion (conversion is C15)", "values are small naturals; keys k0..k2"],
